@@ -260,7 +260,27 @@ def run_campaign(pid, p, eng, binp, tier, seed, scratch, exclude, bins_all=None)
             agg["errors"].append("engine %s proc %d timed out (inconclusive)" % (eng["harness"], i))
             agg["budget_exhausted"] = True
         else:
-            agg["errors"].append("engine %s proc %d exited %s without a case:\n%s" % (eng["harness"], i, rc, logtxt[-3000:]))
+            # a fuzz process that died with a sanitizer report but left no artifact (the report itself faulted: "nested bug"):
+            # every input it can have been executing from disk - seed and corpus directories on its command line - is run alone;
+            # the ones that fail alone are ordinary, reproducible failing inputs
+            culprits = []
+            if eng["type"] == "fuzz" and ("ERROR: AddressSanitizer" in logtxt or "runtime error" in logtxt or "CONTRACT VIOLATION" in logtxt):
+                cands = []
+                for a_ in cmds[i][1:]:
+                    if os.path.isdir(a_):
+                        cands += [os.path.join(a_, f) for f in sorted(os.listdir(a_)) if os.path.isfile(os.path.join(a_, f))]
+                def alone(fp):
+                    failed, _t = replay_once(binp, eng, fp, out, timeout=120)
+                    return fp if failed else None
+                with ThreadPoolExecutor(16) as ex2:
+                    culprits = [c_ for c_ in ex2.map(alone, cands[:20000]) if c_]
+            if culprits:
+                culprits.sort(key=os.path.getsize)
+                for c_ in culprits[:3]:
+                    agg["failures"].append((c_, "input from the corpus directory on which the fuzz process died (no artifact was written): " +
+                                            " | ".join([l for l in logtxt.splitlines() if "ERROR:" in l or "SUMMARY:" in l][:2]), logtxt[-6000:]))
+            else:
+                agg["errors"].append("engine %s proc %d exited %s without a case:\n%s" % (eng["harness"], i, rc, logtxt[-3000:]))
     return agg
 
 
